@@ -74,6 +74,20 @@ func (fv *FV) evalCall(st *State, c *ast.CallExpr) []Term {
 
 func (fv *FV) convert(st *State, v Term, to types.Type, c *ast.CallExpr) Term {
 	ts := fv.sortOf(to)
+	if v.Sort == "ElemPtr" && ts == "ElemPtr" {
+		// unsafe.Pointer(&data[i]) and (*uint64)(unsafe.Pointer(&data[i]))
+		if pt, ok := to.Underlying().(*types.Pointer); ok {
+			if b, ok := pt.Elem().Underlying().(*types.Basic); ok && b.Kind() == types.Uint64 && !v.Word {
+				if v.Room == "" {
+					fv.fail(c.Pos(), "conversion to *uint64 of a pointer of unknown provenance")
+				}
+				fv.safety(st, "unsafe.inbounds["+fv.src(c)+"]", app(">=", v.Room, "8"), "the 8-byte word access stays inside the slice: "+fv.src(c), c.Pos())
+				v.Word = true
+			}
+		}
+		v.T = to
+		return v
+	}
 	if v.Sort == ts {
 		v.T = to
 		v.Lit = false
